@@ -17,7 +17,7 @@ import (
 	"strconv"
 	"time"
 
-	"com.tuntun.rangers/node/src/zzverif/harness"
+	_ "com.tuntun.rangers/node/src/zzverif/harness"
 	"com.tuntun.rangers/node/src/zzverif/runner"
 	"com.tuntun.rangers/node/src/zzverif/simrt"
 	"com.tuntun.rangers/node/src/zzverif/simsched"
@@ -92,7 +92,18 @@ func main() {
 	case "racerun":
 		// executes N concurrent C17 plans in this process; meant for the -race + simrace build, whose
 		// reports go to stderr between the RACEPLAN markers printed here
-		h := need("C17")
+		id := *prop
+		if id == "" {
+			id = "C17"
+		}
+		h := need(id)
+		rh, ok := h.(runner.RaceHarness)
+		if !ok {
+			fmt.Fprintf(os.Stderr, "%s has no race stage\n", id)
+			os.Exit(2)
+		}
+		fr, _ := json.Marshal(rh.RaceFrames())
+		fmt.Fprintf(os.Stderr, "RACEPROP %s\nRACEFRAMES %s\n", id, string(fr))
 		if *planF != "" {
 			// replay of one recorded plan under the race build
 			pb, err := ioutil.ReadFile(*planF)
@@ -112,8 +123,8 @@ func main() {
 			return
 		}
 		for i := 0; i < *n; i++ {
-			plan := harness.C17RacePlan(seed, i)
-			fmt.Fprintf(os.Stderr, "RACEPLAN %d %s\n", i, string(plan))
+			plan := rh.RacePlan(seed, i)
+			fmt.Fprintf(os.Stderr, "RACEPLAN %d %s\n", i, string(compact(plan)))
 			res := runner.ExecOne(h, plan)
 			if res.Violation != nil {
 				fmt.Fprintf(os.Stderr, "RACEPLAN-VIOLATION %d %s\n", i, res.Violation.Class())
